@@ -766,6 +766,15 @@ class AddressCommand(TestCommand):
         {"name": "key-list", "type": ["string", "stringlist"], "required": True},
     ]
 
+    def args_as_tuple(self):
+        """Return arguments as a list."""
+        return (
+            "address",
+            self.arguments["match-type"],
+            tools.argument_to_python(self.arguments["header-list"]),
+            tools.argument_to_python(self.arguments["key-list"]),
+        )
+
 
 class AllofCommand(TestCommand):
     accept_children = True
